@@ -68,6 +68,11 @@ import (
 )
 
 const (
+	counterStepIn  = 3_000_000_001
+	counterStepOut = 1<<31 + 3
+)
+
+const (
 	nasID      = "bng-verif"
 	secret     = "c08-shared-secret"
 	interim    = 20 * time.Second
@@ -264,6 +269,9 @@ type env struct {
 	decodeErr string
 	curOp     int
 	seq       int
+	fetchN    map[int]int                // counter source: fetches per session so far (all process instances)
+	fetched   map[int]map[[2]uint64]bool // (in,out) pairs the counter source has produced per session
+	renames   map[string]int             // effective renames onto each file: how often it was (re)written
 	holdCh    chan struct{}
 	released  bool
 }
@@ -272,7 +280,8 @@ var envSeq atomic.Int64
 
 func newEnv(f faults) *env {
 	id := fmt.Sprintf("i%d", envSeq.Add(1))
-	e := &env{id: id, prefix: "/vfs/" + id, addr: id + ":1813", fs: vfs.New(), f: f, drops: map[string]bool{}, occ: map[string]int{}, curOp: -1}
+	e := &env{id: id, prefix: "/vfs/" + id, addr: id + ":1813", fs: vfs.New(), f: f, drops: map[string]bool{}, occ: map[string]int{}, curOp: -1,
+		fetchN: map[int]int{}, fetched: map[int]map[[2]uint64]bool{}, renames: map[string]int{}}
 	for _, d := range f.Drops {
 		e.drops[d] = true
 	}
@@ -302,6 +311,11 @@ func (e *env) gate(op *vfs.Op) (vfs.Effect, error) {
 	k := e.step
 	e.step++
 	e.stepDesc = append(e.stepDesc, op.Kind+"("+e.rel(op.Path)+")")
+	if k != e.f.Crash.At || e.f.Crash.Mode == "after" {
+		if op.Kind == "Rename" {
+			e.renames[e.rel(op.Path2)]++
+		}
+	}
 	if k != e.f.Crash.At {
 		return vfs.Full, nil
 	}
@@ -416,20 +430,23 @@ type scenario struct {
 type viol struct{ Kind, Site, Detail, Sess string }
 
 type outcome struct {
-	Viols      []viol
-	Steps      int            // environment steps during the history (crash-free executions)
-	StepDesc   []string       // their descriptions
-	Keys       []string       // request keys delivered during the history
-	KeyOp      map[string]int // history operation during which each of them was transmitted
-	Crashed    bool
-	CrashDesc  string
-	CrashOp    string   // history operation in progress at the crash
-	Unanswered []string // "key@epoch" of requests the server received and left unanswered
-	Epochs     int      // process instances started after a crash
-	Restarts   int      // graceful restarts
-	Stream     string   // accepted records, for evidence
-	Signature  uint64
-	OpsApplied int
+	Viols          []viol
+	Steps          int            // environment steps during the history (crash-free executions)
+	StepDesc       []string       // their descriptions
+	Keys           []string       // request keys delivered during the history
+	KeyOp          map[string]int // history operation during which each of them was transmitted
+	Crashed        bool
+	CrashDesc      string
+	CrashOp        string         // history operation in progress at the crash
+	FileWrites     map[string]int // effective (re)writes per file
+	InterimRetried bool
+	RecoveredStop  bool     // A7: the offending Stop was sent by a later process instance than the Interim
+	Unanswered     []string // "key@epoch" of requests the server received and left unanswered
+	Epochs         int      // process instances started after a crash
+	Restarts       int      // graceful restarts
+	Stream         string   // accepted records, for evidence
+	Signature      uint64
+	OpsApplied     int
 }
 
 type exec struct {
@@ -442,10 +459,14 @@ type exec struct {
 	restarts   int
 	kills      int
 	noStart    bool
+	here       map[int]bool // sessions started by the current process instance: only they have live counters
 	out        outcome
 }
 
 func (x *exec) newManager() {
+	x.e.mu.Lock()
+	x.here = map[int]bool{}
+	x.e.mu.Unlock()
 	cl, err := radius.NewClient(radius.ClientConfig{Servers: []radius.ServerConfig{{Host: x.e.id, Port: 1812, Secret: secret}}, NASID: nasID, Timeout: 3 * time.Second}, zap.NewNop())
 	if err != nil {
 		panic(err)
@@ -466,7 +487,24 @@ func (x *exec) newManager() {
 		if i < 0 {
 			return nil, fmt.Errorf("unknown session")
 		}
-		return &radius.SessionCounters{InputOctets: sessCfgs[i].in, OutputOctets: sessCfgs[i].out, InputPackets: 7, OutputPackets: 9}, nil
+		// the counter source the harness owns: traffic grows with every reading (and crosses 2^32 boundaries).
+		// Like the data-plane maps it is set up by the running process: a new process instance has no
+		// counters for sessions it did not start itself.
+		e := x.e
+		e.mu.Lock()
+		if !x.here[i] {
+			e.mu.Unlock()
+			return nil, fmt.Errorf("no counters for %s in this process", id)
+		}
+		n := uint64(e.fetchN[i])
+		e.fetchN[i]++
+		in, out := sessCfgs[i].in+n*counterStepIn, sessCfgs[i].out+n*counterStepOut
+		if e.fetched[i] == nil {
+			e.fetched[i] = map[[2]uint64]bool{}
+		}
+		e.fetched[i][[2]uint64{in, out}] = true
+		e.mu.Unlock()
+		return &radius.SessionCounters{InputOctets: in, OutputOctets: out, InputPackets: 7 + n, OutputPackets: 9 + n}, nil
 	})
 	x.am = am
 	if x.noStart {
@@ -492,6 +530,9 @@ func (x *exec) apply(op string) {
 	case "Start":
 		c := sessCfgs[i]
 		x.invoked[i] = true
+		x.e.mu.Lock()
+		x.here[i] = true
+		x.e.mu.Unlock()
 		err := x.am.StartSession(&radius.AccountingSession{SessionID: c.id, Username: c.user, MAC: append(net.HardwareAddr{}, c.mac...),
 			FramedIP: append(net.IP{}, c.ip...), NASPort: uint32(100 + i), Class: append([]byte{}, c.class...), CircuitID: "circuit-" + c.id, RemoteID: "remote-" + c.id})
 		if err == nil && !x.e.isCrashed() {
@@ -669,6 +710,11 @@ func (x *exec) check(sc scenario) {
 	e.mu.Lock()
 	recs := append([]*rec{}, e.recs...)
 	decodeErr := e.decodeErr
+	fetched := e.fetched
+	x.out.FileWrites = map[string]int{}
+	for k, v := range e.renames {
+		x.out.FileWrites[k] = v
+	}
 	e.mu.Unlock()
 	files := e.fs.Files()
 	site := "history"
@@ -704,10 +750,27 @@ func (x *exec) check(sc scenario) {
 		if r.User != c.user || r.MAC != fmtMAC(c.mac) || r.IP != c.ip.String() || !bytes.Equal(r.Class, c.class) || r.NAS != nasID || !r.AuthOK {
 			x.v("A5-identity", site, "record %v: user=%q mac=%q ip=%q class=%q nas=%q authenticator-ok=%v; session has user=%q mac=%q ip=%q class=%q", r, r.User, r.MAC, r.IP, r.Class, r.NAS, r.AuthOK, c.user, fmtMAC(c.mac), c.ip, c.class)
 		}
-		// A6 (history side): counters of records built from the live counter source
-		if (r.Typ == typStop || r.Typ == typInterim) && !x.out.Crashed && x.restarts == 0 && x.kills == 0 {
-			if r.In != c.in || r.Out != c.out {
-				x.v("A6-counter-split", site, "record %v reports in=%d out=%d, counters are in=%d out=%d", r, r.In, r.Out, c.in, c.out)
+		// A6 (history side): the counters a record reports are a reading the counter source produced for
+		// that session (or nothing yet), exactly, through low word + gigawords
+		if r.Typ == typStop || r.Typ == typInterim {
+			if !(r.In == 0 && r.Out == 0) && !fetched[i][[2]uint64{r.In, r.Out}] {
+				x.vs(r.Sess, "A6-counter-split", site, "record %v reports in=%d out=%d, which the session's counter source never produced", r, r.In, r.Out)
+			}
+		}
+		// A7: counters never go backwards: a Stop reports at least what the last Interim reported that had
+		// been acknowledged when the Stop was transmitted
+		if r.Typ == typStop {
+			for _, q := range recs {
+				if q.Typ == typInterim && q.Sess == r.Sess && q.AckSeen && q.AckSeq < r.SendSeq && (r.In < q.In || r.Out < q.Out) {
+					x.out.RecoveredStop = r.Epoch > q.Epoch
+					for _, q0 := range recs {
+						if q0.N < q.N && q0.Typ == typInterim && q0.Sess == q.Sess && q0.Delivered && !q0.Accepted && q0.In == q.In && q0.Out == q.Out {
+							x.out.InterimRetried = true // the acknowledged Interim is a retransmission from the retry queue
+						}
+					}
+					x.vs(r.Sess, "A7-counters-backwards", site, "%v reports in=%d out=%d, less than the acknowledged %v did (in=%d out=%d)", r, r.In, r.Out, q, q.In, q.Out)
+					break
+				}
 			}
 		}
 		// A3
@@ -931,7 +994,7 @@ func (d *driver) report(sc scenario, out outcome, v viol) {
 	trace = append(trace, "| accepted: "+out.Stream)
 	rv := report.Violation{Part: d.part, Kind: v.Kind, Site: v.Site, Detail: v.Detail, Config: sc.F.String(), Trace: trace,
 		Extra: map[string]any{"ops": sc.Ops, "drops": sc.F.Drops, "down": sc.F.Down, "crash_at": sc.F.Crash.At, "crash_mode": sc.F.Crash.Mode,
-			"queue_size": sc.F.QueueSize, "hold": sc.F.Hold, "release_at": sc.F.ReleaseAt, "crash_desc": out.CrashDesc, "crash_op": out.CrashOp, "sess": v.Sess, "unanswered": out.Unanswered, "crashed": out.Crashed, "epochs": out.Epochs}}
+			"queue_size": sc.F.QueueSize, "hold": sc.F.Hold, "release_at": sc.F.ReleaseAt, "crash_desc": out.CrashDesc, "crash_op": out.CrashOp, "sess": v.Sess, "file_writes": out.FileWrites["sessions/"+v.Sess+".json"], "recovered_stop": out.RecoveredStop, "interim_retried": out.InterimRetried, "unanswered": out.Unanswered, "crashed": out.Crashed, "epochs": out.Epochs}}
 	classify(&rv)
 	d.run.Violation(rv)
 }
@@ -1299,6 +1362,28 @@ func classify(v *report.Violation) {
 				return
 			}
 		}
+	}
+	if v.Kind == "A7-counters-backwards" {
+		// the Stop was built by a later process instance from a session file that had only been written by
+		// StartSession (one write): the acknowledged Interims never reached the disk
+		writes := -1
+		switch n := v.Extra["file_writes"].(type) {
+		case int:
+			writes = n
+		case float64:
+			writes = int(n)
+		}
+		rs, _ := v.Extra["recovered_stop"].(bool)
+		ir, _ := v.Extra["interim_retried"].(bool)
+		switch {
+		case rs && writes == 1:
+			v.Class = "C08-K3-recovered-stop-from-start-time-file"
+		case rs && ir:
+			// the Interim the Stop falls behind was delivered by the retry queue; that path does not record
+			// the counters as the session's last acknowledged ones, so the stop-pending file lacks them
+			v.Class = "C08-K4-retried-interim-not-recorded"
+		}
+		return
 	}
 	switch v.Kind {
 	case "A1-stop-missing":
